@@ -49,21 +49,6 @@ fn level_takes_more_words(spec: &Spec) -> bool {
     go(spec, false)
 }
 
-fn level_at<'a>(spec: &'a OptSpec, units: &[U], upto: usize) -> &'a OptSpec {
-    // follow the command names left of `upto`
-    let mut cur = spec;
-    for u in &units[..upto.min(units.len())] {
-        if let UKind::CmdName { id, .. } = &u.kind {
-            let mut cmds = Vec::new();
-            cur.root.level_cmds(&mut cmds);
-            if let Some(c) = cmds.into_iter().find(|c| c.id == *id) {
-                cur = &c.opts;
-            }
-        }
-    }
-    cur
-}
-
 fn has_pos_or_cmd(spec: &Spec) -> bool {
     let mut items = Vec::new();
     spec.level_items(&mut items);
